@@ -636,10 +636,25 @@ def b12(ctx, rid):
     for f in prog.fns.values():
         if not f.file.startswith('src/blob/'):
             continue
+        sites = []
         for c in f.calls:
             fresh = ('filter::bloom::Bloom' in c.path and c.name in ('new', 'new_from_shared_config')) or ('RangeFilter' in c.path and c.name in ('new', 'default'))
-            if not fresh or c.bb not in f.reachable():
-                continue
+            if fresh and c.bb in f.reachable():
+                sites.append((c.where(), c.path))
+            # the constructor handed over as a function item: `.map(Bloom::new)`
+            for a in c.args:
+                k = op_const(a)
+                if k and 'fn' in k and c.bb in f.reachable():
+                    pth = k['fn'].get('res') or k['fn'].get('path') or ''
+                    if ('filter::bloom::Bloom' in pth and pth.split('::')[-1] in ('new', 'new_from_shared_config')) or ('RangeFilter' in pth and pth.split('::')[-1] in ('new', 'default')):
+                        sites.append((c.where(), pth))
+        for (where, path) in sites:
+            class _C:
+                pass
+            c = _C()
+            c.path = path
+            c.name = path.split('::')[-1]
+            c.where = (lambda w=where: w)
             n += 1
             root = prog.fns[f.id].root
             key = 'fresh-filter-only-for-empty-index|%s|%s' % (root, c.path.split('::')[-2] if '::' in c.path else c.name)
